@@ -1,5 +1,10 @@
 #!/bin/sh
-# usage (inside `vp run -- sh bin/sweep_clean.sh <seed>...`): all twenty quick checks on the unchanged tree under other seeds
+# usage (inside `vp run --with-repo -- sh bin/sweep_clean.sh <seed>...`): all twenty quick checks on the unchanged tree under other
+# seeds, against the private copy of the repository ($VP_RUN_REPO) so that work going on in /repo meanwhile does not disturb them
+if [ -n "${VP_RUN_REPO:-}" ]; then
+  sed -i "s#=> /repo#=> $VP_RUN_REPO#" harness/go.mod
+  export VERIF_REPO=$VP_RUN_REPO
+fi
 for s in "$@"; do
   for n in 01 02 03 04 05 06 07 08 09 10 11 12 13 14 15 16 17 18 19 20; do
     VERIF_SEED=$s python3 bin/check C$n 2>&1 | grep -E "VIOLATION|quick:|ERROR" | sed "s/^/[seed $s] /"
